@@ -22,6 +22,7 @@ import (
 	"runtime/debug"
 	"strconv"
 	"strings"
+	"sync"
 	"time"
 
 	"verifharness/hx"
@@ -148,37 +149,73 @@ func runFatal(o *hx.Out) error {
 		return err
 	}
 	from := 0
+	timeouts := 0
+	const probeBudget = 6 * time.Second // a probe that neither ends nor dies within this time does not terminate
 	for from < len(ps) {
+		if timeouts >= 6 { // enough witnesses of non-termination: the remaining probes are not run
+			for i := from; i < len(ps); i++ {
+				if obs[i] == "" {
+					obs[i] = "skipped"
+				}
+			}
+			break
+		}
 		cmd := exec.Command(exe)
 		cmd.Env = append(os.Environ(), "C04_FATAL_CHILD="+strconv.Itoa(from), "GOTRACEBACK=single")
-		var so, se bytes.Buffer
-		cmd.Stdout, cmd.Stderr = &so, &se
+		var se bytes.Buffer
+		cmd.Stderr = &se
+		pipe, err := cmd.StdoutPipe()
+		if err != nil {
+			return err
+		}
 		if err := cmd.Start(); err != nil {
 			return err
 		}
-		done := make(chan error, 1)
-		go func() { done <- cmd.Wait() }()
+		var mu sync.Mutex
+		begun, last := -1, time.Now()
+		eof := make(chan struct{})
+		go func() {
+			sc := bufio.NewScanner(pipe)
+			for sc.Scan() {
+				f := strings.SplitN(sc.Text(), " ", 3)
+				mu.Lock()
+				switch {
+				case len(f) >= 2 && f[0] == "BEGIN":
+					begun, _ = strconv.Atoi(f[1])
+				case len(f) == 3 && f[0] == "END":
+					i, _ := strconv.Atoi(f[1])
+					obs[i] = f[2]
+					begun = -1
+				}
+				last = time.Now()
+				mu.Unlock()
+			}
+			close(eof)
+		}()
 		timedOut := false
-		select {
-		case <-done:
-		case <-time.After(90 * time.Second):
-			timedOut = true
-			_ = cmd.Process.Kill()
-			<-done
-		}
-		begun := -1
-		for _, ln := range strings.Split(so.String(), "\n") {
-			f := strings.SplitN(ln, " ", 3)
-			switch {
-			case len(f) >= 2 && f[0] == "BEGIN":
-				begun, _ = strconv.Atoi(f[1])
-			case len(f) == 3 && f[0] == "END":
-				i, _ := strconv.Atoi(f[1])
-				obs[i] = f[2]
-				begun = -1
+	wait:
+		for {
+			select {
+			case <-eof:
+				break wait
+			case <-time.After(250 * time.Millisecond):
+				mu.Lock()
+				stuck := begun >= 0 && time.Since(last) > probeBudget
+				startup := begun < 0 && time.Since(last) > 120*time.Second
+				mu.Unlock()
+				if stuck || startup {
+					timedOut = true
+					_ = cmd.Process.Kill()
+					<-eof
+					break wait
+				}
 			}
 		}
-		if begun < 0 {
+		_ = cmd.Wait()
+		mu.Lock()
+		bg := begun
+		mu.Unlock()
+		if bg < 0 {
 			if obs[len(ps)-1] == "" {
 				return fmt.Errorf("fatal-probe child ended without finishing and without a begun probe: %s", firstLine(se.String()))
 			}
@@ -186,19 +223,24 @@ func runFatal(o *hx.Out) error {
 		}
 		switch {
 		case timedOut:
-			obs[begun] = "panic:fatal-timeout"
+			obs[bg] = "panic:fatal-nontermination"
+			timeouts++
 		case strings.Contains(se.String(), "stack overflow"):
-			obs[begun] = "panic:fatal-stack-overflow"
+			obs[bg] = "panic:fatal-stack-overflow"
 		default:
-			obs[begun] = "panic:fatal-" + strings.ReplaceAll(firstLine(se.String()), " ", "-")
+			obs[bg] = "panic:fatal-" + strings.ReplaceAll(firstLine(se.String()), " ", "-")
 		}
-		from = begun + 1
+		from = bg + 1
 	}
 	for i, p := range ps {
 		if obs[i] == "" {
 			return fmt.Errorf("fatal probe %d (%s) has no observation", i, p.label)
 		}
 		k := strings.SplitN(p.kind, ":", 2)
+		if obs[i] == "skipped" {
+			o.Count("xfatal:" + k[0] + ":skipped-after-6-nonterminating-probes")
+			continue
+		}
 		o.Emit(fmt.Sprintf("c04 x %s ParseAny %s # %s %s.ParseAny(%s)", k[0], strings.ReplaceAll(p.vname, " ", "_"), p.kind, p.label, p.vname), obs[i])
 		o.Count("xfatal:" + k[0] + ":" + strings.SplitN(obs[i], ":", 2)[0])
 	}
